@@ -71,6 +71,24 @@ def swapped(toks, pairs):
     return out
 
 
+def order_twins(toks, pairs):
+    """Argument lists that name both roles side by side (f(msgs, actual_path, expected_path)) keep their order under the role swap,
+    because the callee's signature fixes it: put such adjacent twins - two plain identifiers separated by a comma that are each
+    other's swap - in one canonical order, so that the order of twin arguments is not read as a difference."""
+    out = list(toks)
+    i = 0
+    while i + 2 < len(out):
+        a, c, b = out[i], out[i + 1], out[i + 2]
+        if c == ',' and _is_ident(a) and _is_ident(b) and a != b and swap_ident(a, pairs) == b \
+                and (i == 0 or out[i - 1] in ('(', ',')) and (i + 3 >= len(out) or out[i + 3] in (')', ',')):
+            if a > b:
+                out[i], out[i + 2] = b, a
+            i += 3
+        else:
+            i += 1
+    return out
+
+
 def mentions_role(toks, pairs):
     txt = ' '.join(toks)
     return any(re.search(a, txt) or re.search(b, txt) for a, b in pairs)
@@ -99,32 +117,33 @@ def near_mirror_pairs(stmts, pairs, lo=0.85):
     for i in range(len(stmts)):
         if not mentions_role(toks[i], pairs) or len(toks[i]) < 6:
             continue
-        sw = swapped(toks[i], pairs)
-        if sw == toks[i]:
+        sw = order_twins(swapped(toks[i], pairs), pairs)
+        if sw == order_twins(toks[i], pairs):
             continue
-        if any(sw == toks[k] for k in range(len(stmts)) if k != i):
+        if any(sw == order_twins(toks[k], pairs) for k in range(len(stmts)) if k != i):
             continue            # has an exact mirror
         best = None
         for j in range(i + 1, len(stmts)):
             if len(toks[j]) < 6:
                 continue
-            r = difflib.SequenceMatcher(None, sw, toks[j], autojunk=False).ratio()
+            r = difflib.SequenceMatcher(None, sw, order_twins(toks[j], pairs), autojunk=False).ratio()
             if best is None or r > best[1]:
                 best = (j, r)
         if best is None or best[1] < lo:
             continue
         j, r = best
-        swj = swapped(toks[j], pairs)
-        if any(swj == toks[k] for k in range(len(stmts)) if k != j):
+        swj = order_twins(swapped(toks[j], pairs), pairs)
+        if any(swj == order_twins(toks[k], pairs) for k in range(len(stmts)) if k != j):
             continue
-        sm = difflib.SequenceMatcher(None, sw, toks[j], autojunk=False)
+        tj = order_twins(toks[j], pairs)
+        sm = difflib.SequenceMatcher(None, sw, tj, autojunk=False)
         bad = []
         ren = {}
         rev = {}
         for tag, a, b, c, d in sm.get_opcodes():
             if tag == 'equal':
                 continue
-            x, y = sw[a:b], toks[j][c:d]
+            x, y = sw[a:b], tj[c:d]
             if tag == 'replace' and len(x) == len(y):
                 for u, v in zip(x, y):
                     if _is_str(u) and _is_str(v) and (' ' in u or ' ' in v):
